@@ -33,11 +33,11 @@ import (
 )
 
 type c31Fork struct {
-	name                     string
-	cfg                      *params.ChainConfig
+	name                      string
+	cfg                       *params.ChainConfig
 	london, prague, amsterdam bool
-	merge                    bool
-	quot                     uint64 // refund quotient: 2 before EIP-3529, 5 after
+	merge                     bool
+	quot                      uint64 // refund quotient: 2 before EIP-3529, 5 after
 }
 
 func c31Forks() []c31Fork {
@@ -514,8 +514,8 @@ func c31Templates() []c31Tmpl {
 		{name: "set-then-clear", to: p(c31ASetClr), data: func(pos int) []byte { return word(uint64(pos) + 1) }, gas: ample},
 		{name: "sstore-revert", to: p(c31ARevert), data: func(pos int) []byte { return word(uint64(pos) + 1) }, gas: ample},
 		{name: "sstore-invalid", to: p(c31AInvalid), data: func(pos int) []byte { return word(uint64(pos) + 1) }, gas: ample},
-		{name: "call-new-account", to: p(c31ACallNew), data: func(pos int) []byte { return common.LeftPadBytes(fresh(pos + 8).Bytes(), 32) }, gas: ample},
-		{name: "call-new-account-revert", to: p(c31ACallRev), data: func(pos int) []byte { return common.LeftPadBytes(fresh(pos + 16).Bytes(), 32) }, gas: ample},
+		{name: "call-new-account", to: p(c31ACallNew), data: func(pos int) []byte { return common.LeftPadBytes(fresh(pos+8).Bytes(), 32) }, gas: ample},
+		{name: "call-new-account-revert", to: p(c31ACallRev), data: func(pos int) []byte { return common.LeftPadBytes(fresh(pos+16).Bytes(), 32) }, gas: ample},
 		{name: "create", data: func(int) []byte { return []byte{0x60, 0x03, 0x60, 0x00, 0xf3} }, gas: ample},
 		{name: "create-revert", data: func(int) []byte { return []byte{0x60, 0x00, 0x60, 0x00, 0xfd} }, gas: ample},
 		{name: "calldata-heavy", to: p(c31EOA), data: func(int) []byte { return heavy }, gas: exact},
